@@ -224,7 +224,7 @@ Definition judge_lock (ti tobs : tree) : tree :=
 
 Definition judge_free (ti tobs : tree) : tree :=
   match ti, tobs with
-  | T [L 0; _; T cfgs; _], T [netdump; T trace; T ctrs] =>
+  | T (L 0 :: _ :: T cfgs :: _), T [netdump; T trace; T ctrs; L stall_ok] =>
       match mapM (dec_cfg 64) cfgs with
       | None => malformed
       | Some cfgs =>
@@ -234,7 +234,9 @@ Definition judge_free (ti tobs : tree) : tree :=
               let p := rev tr in
               let clean := existsb (fun e => match e with TDone true => true | _ => false end) p in
               let fails := trace_ok nt p ++ (if clean then terminal_ok nt p ks else []) in
-              verdict (diff_if (tree_eqb (enc_net nt) netdump) 1) (map enc_pc fails) (enc_net nt)
+              (* (4,3): while a discarding node was stalled, the source could not finish emitting: somebody waited for it *)
+              let stall_clause := if stall_ok =? 0 then [clause 4 3 []] else [] in
+              verdict (diff_if (tree_eqb (enc_net nt) netdump) 1) (map enc_pc fails ++ stall_clause) (enc_net nt)
                       ((if clean then [30] else [31])
                        ++ (if existsb (fun x => ndisc x) nt then [20] else [])
                        ++ (if existsb (fun x => match nhandler x with Some _ => true | None => false end) nt then [21] else [])
